@@ -41,6 +41,9 @@ Merge(c, o) == [dir |-> IF o.dir = "" THEN c.dir ELSE o.dir, ext |-> IF o.ext = 
 \* [k |-> "String" | "Response" | "EvalString" | "EvalFile", page |-> "ok" | "bad" | "missing"]
 Op(k, page) == [k |-> k, page |-> page]
 PathOf(page, m, c) == (IF m THEN c.dir \o "/" ELSE "") \o page \o c.ext
+\* names that are no template although a file can be found behind some of them: no such file, a layout, other spellings
+\* of a page's path, a page's file name
+NotTemplates == {"missing", "layouts/main", "/ok", "layouts/../ok", "ok.tw", "./ok"}
 \* what String(page) returns given the path prefix it computed
 StringResult(page, p) == CASE page = "ok" -> [ok |-> TRUE, out |-> "page:ok"]
                            [] page = "ok2" -> [ok |-> TRUE, out |-> "page:ok2"]        \* another page of the same layout
@@ -48,7 +51,7 @@ StringResult(page, p) == CASE page = "ok" -> [ok |-> TRUE, out |-> "page:ok"]
                            [] page = "static" -> [ok |-> TRUE, out |-> "page:static"]  \* text and argument-less components that read the caller's data
                            [] page \in {"bad", "bad-in-component", "bad-in-layout", "bad-at-start", "bad-in-loop", "bad-in-slot", "bad-in-insert", "bad-in-array", "bad-in-args", "bad-in-object", "bad-in-for-cond", "bad-in-elseif", "bad-in-each-else", "bad-in-for-else", "bad-lt", "bad-in-assign", "nested-use"} ->
                                   [ok |-> FALSE, err |-> "runtime error", at |-> p]      \* fails at different points of the render
-                           [] page = "missing" -> [ok |-> FALSE, err |-> "template not found", at |-> p]
+                           [] page \in NotTemplates -> [ok |-> FALSE, err |-> "template not found", at |-> p]
                            [] page = "errpage" -> [ok |-> TRUE, out |-> "page:custom-error"]
                            [] page \in {"row1", "row2"} -> [ok |-> TRUE, out |-> "page:row"]   \* data: two struct types that share a name
                            [] page \in {"polyS", "polyA", "polyI"} -> [ok |-> TRUE, out |-> "page:poly"]   \* one template, receivers of three types
